@@ -498,3 +498,156 @@ def _ldmxcsr(I, ins, args, cond):
 
 TABLE["llvm.x86.sse.stmxcsr"] = _stmxcsr
 TABLE["llvm.x86.sse.ldmxcsr"] = _ldmxcsr
+
+
+# ---------------------------------------------------------------------------
+# AVX-512 arithmetic with an embedded-rounding operand.  4 = MXCSR.RC (plain operation);
+# 8..11 = static rounding RN/RD/RU/RZ with exceptions suppressed: a different function.
+_STATIC = {8: "RN", 9: "RD", 10: "RU", 11: "RZ", 0: "RN", 1: "RD", 2: "RU", 3: "RZ"}
+
+
+def _rounded2(opname, eb):
+    def h(I, ins, args, cond):
+        a, b, r = args[0], args[1], args[-1]
+        if r[0] != "const":
+            return NotImplemented
+        n = a[1] // eb
+        name = opname if r[2] == 4 else "fr:%s:%s" % (_STATIC.get(r[2], "RN"), opname)
+        if name == "fsub":
+            return T.concat([T.fsub(eb, T.slice_(a, i * eb, eb), T.slice_(b, i * eb, eb)) for i in range(n)])
+        mkop = T.opc if name in ("fadd", "fmul") else T.op
+        return T.concat([mkop(name, eb, T.slice_(a, i * eb, eb), T.slice_(b, i * eb, eb)) for i in range(n)])
+    return h
+
+
+for _o, _n in (("add", "fadd"), ("sub", "fsub"), ("mul", "fmul"), ("div", "fdiv")):
+    TABLE["llvm.x86.avx512.%s.ps.512" % _o] = _rounded2(_n, 32)
+    TABLE["llvm.x86.avx512.%s.pd.512" % _o] = _rounded2(_n, 64)
+
+
+def _rounded1(opname, eb):
+    def h(I, ins, args, cond):
+        a, r = args[0], args[-1]
+        if r[0] != "const":
+            return NotImplemented
+        n = a[1] // eb
+        name = opname if r[2] == 4 else "fr:%s:%s" % (_STATIC.get(r[2], "RN"), opname)
+        return T.concat([T.op(name, eb, T.slice_(a, i * eb, eb)) for i in range(n)])
+    return h
+
+
+TABLE["llvm.x86.avx512.sqrt.ps.512"] = _rounded1("call:llvm.sqrt", 32)
+TABLE["llvm.x86.avx512.sqrt.pd.512"] = _rounded1("call:llvm.sqrt", 64)
+
+
+def _itofp_round(name):
+    def h(I, ins, args, cond):
+        a, r = args[0], args[-1]
+        if r[0] != "const":
+            return NotImplemented
+        ty = ins["t"]
+        n, eb = ty["n"], ty["eb"]
+        sw = a[1] // n
+        nm = name if r[2] == 4 else "fr:%s:%s" % (_STATIC.get(r[2], "RN"), name)
+        return T.concat([T.op(nm, eb, T.slice_(a, i * sw, sw)) for i in range(n)])
+    return h
+
+
+for _k in list(TABLE):
+    pass
+import re as _re
+
+
+class _Prefix(dict):
+    """intrinsic names with type suffixes (uitofp.round.v16f32.v16i32)"""
+
+
+def lookup_prefix(name):
+    if name.startswith("llvm.x86.avx512.uitofp.round"):
+        return _itofp_round("uitofp")
+    if name.startswith("llvm.x86.avx512.sitofp.round"):
+        return _itofp_round("sitofp")
+    return None
+
+
+# float -> int conversions.  SDM CVTTPS2DQ etc.: truncation; NaN / out of range give the integer
+# indefinite value 0x80000000 (signed forms) or all ones (AVX-512 unsigned forms).  CVTPS2DQ rounds
+# according to MXCSR.RC.
+def _cvt(src_eb, dst_eb, signed, how, masked=False, scalar=False):
+    def h(I, ins, args, cond):
+        x = args[0]
+        if masked:
+            pt, k = args[1], args[2]
+            if not T.all_ones(k):
+                return NotImplemented
+            if len(args) > 3 and not (args[3][0] == "const" and args[3][2] == 4):
+                return NotImplemented
+        if scalar:
+            return T.op("x86.cvt", dst_eb, T.slice_(x, 0, src_eb), int(signed), how)
+        ty = ins["t"]
+        n_out = ty["n"]
+        n_in = x[1] // src_eb
+        out = []
+        for i in range(n_out):
+            if i < n_in:
+                out.append(T.op("x86.cvt", dst_eb, T.slice_(x, i * src_eb, src_eb), int(signed), how))
+            else:
+                out.append(T.const(dst_eb, 0))
+        return T.concat(out)
+    return h
+
+
+TABLE["llvm.x86.sse2.cvttps2dq"] = _cvt(32, 32, True, "trunc")
+TABLE["llvm.x86.sse2.cvtps2dq"] = _cvt(32, 32, True, "rint")
+TABLE["llvm.x86.avx.cvtt.ps2dq.256"] = _cvt(32, 32, True, "trunc")
+TABLE["llvm.x86.avx.cvt.ps2dq.256"] = _cvt(32, 32, True, "rint")
+TABLE["llvm.x86.sse2.cvttpd2dq"] = _cvt(64, 32, True, "trunc")
+TABLE["llvm.x86.avx.cvtt.pd2dq.256"] = _cvt(64, 32, True, "trunc")
+TABLE["llvm.x86.avx512.mask.cvttps2dq.512"] = _cvt(32, 32, True, "trunc", masked=True)
+TABLE["llvm.x86.avx512.mask.cvttps2udq.512"] = _cvt(32, 32, False, "trunc", masked=True)
+TABLE["llvm.x86.avx512.mask.cvttps2udq.256"] = _cvt(32, 32, False, "trunc", masked=True)
+TABLE["llvm.x86.avx512.mask.cvttps2udq.128"] = _cvt(32, 32, False, "trunc", masked=True)
+TABLE["llvm.x86.avx512.mask.cvttpd2dq.512"] = _cvt(64, 32, True, "trunc", masked=True)
+for _w in ("128", "256", "512"):
+    TABLE["llvm.x86.avx512.mask.cvttpd2udq." + _w] = _cvt(64, 32, False, "trunc", masked=True)
+    TABLE["llvm.x86.avx512.mask.cvttpd2uqq." + _w] = _cvt(64, 64, False, "trunc", masked=True)
+    TABLE["llvm.x86.avx512.mask.cvttpd2qq." + _w] = _cvt(64, 64, True, "trunc", masked=True)
+TABLE["llvm.x86.sse2.cvttsd2si64"] = _cvt(64, 64, True, "trunc", scalar=True)
+TABLE["llvm.x86.sse2.cvtsd2si64"] = _cvt(64, 64, True, "rint", scalar=True)
+TABLE["llvm.x86.sse2.cvttsd2si"] = _cvt(64, 32, True, "trunc", scalar=True)
+TABLE["llvm.x86.sse.cvttss2si"] = _cvt(32, 32, True, "trunc", scalar=True)
+TABLE["llvm.x86.sse.cvttss2si64"] = _cvt(32, 64, True, "trunc", scalar=True)
+
+
+# PMULHW / PMULHUW: high 16 bits of the 32-bit product
+def _pmulh(signed):
+    def h(I, ins, args, cond):
+        a, b = args
+        ext = T.sext if signed else T.zext
+        out = []
+        for i in range(a[1] // 16):
+            x, y = ext(T.slice_(a, i * 16, 16), 32), ext(T.slice_(b, i * 16, 16), 32)
+            out.append(T.slice_(T.mul(x, y), 16, 16))
+        return T.concat(out)
+    return h
+
+
+for _n in ("llvm.x86.sse2.pmulh.w", "llvm.x86.avx2.pmulh.w", "llvm.x86.avx512.pmulh.w.512"):
+    TABLE[_n] = _pmulh(True)
+for _n in ("llvm.x86.sse2.pmulhu.w", "llvm.x86.avx2.pmulhu.w", "llvm.x86.avx512.pmulhu.w.512"):
+    TABLE[_n] = _pmulh(False)
+
+
+# PMADDUBSW: signed-saturated sum of two (unsigned byte x signed byte) products
+def _pmaddubsw(I, ins, args, cond):
+    a, b = args
+    out = []
+    for i in range(a[1] // 16):
+        p0 = T.mul(T.zext(T.slice_(a, i * 16, 8), 32), T.sext(T.slice_(b, i * 16, 8), 32))
+        p1 = T.mul(T.zext(T.slice_(a, i * 16 + 8, 8), 32), T.sext(T.slice_(b, i * 16 + 8, 8), 32))
+        out.append(T.saturate("ss", T.add(p0, p1), 16))
+    return T.concat(out)
+
+
+for _n in ("llvm.x86.ssse3.pmadd.ub.sw.128", "llvm.x86.avx2.pmadd.ub.sw", "llvm.x86.avx512.pmaddubs.w.512"):
+    TABLE[_n] = _pmaddubsw
